@@ -320,6 +320,12 @@ def run(src, tier, seed):
             else:
                 res.ok(r, '%s: literal loop at line %s (%d path states)' % (short, lp.get('ln'), len(c.exits)))
 
+    # ---- the chain logged for an incoming clause resolves each level-0-false literal exactly once
+    r = res.rule('incoming-clause-units-once', 'CoreSMTSolver::addOriginalClause_ with proof logging on: for every sorted literal list with duplicates over two variables and every level-0 '
+                 'assignment, the compaction loop keeps each unassigned literal once and records each false literal once (a false literal recorded twice gives a second resolution step whose '
+                 'pivot is no longer in the clause)', floor=100)
+    incoming_clause_rule(fx, res, r)
+
     r = res.rule('derivation-not-dropped', 'endChain stores the finished derivation with an operation that cannot silently keep an older entry for the same clause '
                  '(the empty clause CRef_Undef is re-derived after every pop): emplace/insert whose result is discarded is only safe if absence is enforced by non-assert code', floor=1)
     ec = fx.func('opensmt::ResolutionProof::endChain')
@@ -370,3 +376,74 @@ def run(src, tier, seed):
                     res.ok(r, 'operator<<(clause_type) (debug printer; CLA_ASSUMPTION/CLA_SPLIT listed as debug-only gaps)')
     res.extra['scope_functions'] = len(ctx.scope)
     return res
+
+
+def incoming_clause_rule(fx, res, r):
+    import itertools
+    from boolctor import Interp, Unmodelled, Thrown, Ret
+    f = fx.func('opensmt::CoreSMTSolver::addOriginalClause_', pred=lambda g: len(g['params']) == 2)
+    top = [s_ for s_ in f['body']['c'] if isinstance(s_, dict)]
+    li = [i for i, s_ in enumerate(top) if s_.get('k') == 'loop' and any(x.get('k') == 'call' and mname(x) in ('push_back', 'push', 'emplace_back') and 'resolved' in (recv_path(x) or '').lower() for x in walk(s_['body']))]
+    if len(li) != 1:
+        raise AnalysisBroken('addOriginalClause_: the compaction loop that records resolved units was not found')
+    li = li[0]
+    ru_name = [recv_path(x) for x in walk(top[li]['body']) if x.get('k') == 'call' and mname(x) in ('push_back', 'push', 'emplace_back') and 'resolved' in (recv_path(x) or '').lower()][0]
+    start = max(i for i, s_ in enumerate(top[:li]) if s_.get('k') == 'decl' and s_.get('n') == ru_name)
+    ps_name = f['params'][0]['n']
+    flags = [d['n'] for d in top[:start] if d.get('k') == 'decl' and 'bool' in (d.get('ct') or '')]
+    lits = [('lit', v, sg) for v in ('a', 'b') for sg in (False, True)]
+    order = {l: i for i, l in enumerate(lits)}
+    n = 0
+    bad = None
+    try:
+        for ln in range(1, 5):
+            for combo in itertools.combinations_with_replacement(lits, ln):
+                ps0 = sorted(combo, key=lambda l: order[l])
+                for va, vb in itertools.product('TFU', repeat=2):
+                    val = {'a': va, 'b': vb}
+                    n += 1
+
+                    def value(i, a, nd, val=val):
+                        l = a[0]
+                        v = val[l[1]]
+                        if v == 'U':
+                            return 2
+                        return 0 if (v == 'T') != l[2] else 1          # l_True = lbool(0), l_False = lbool(1), l_Undef = lbool(2)
+                    it = Interp(fx, f, '?', {})
+                    it.oracle = {'value': value, 'op:~': lambda i, a, nd: ('lit', a[0][1], not a[0][2]) if len(a[0]) == 3 else ('neg',) + a[0]}
+                    env = {ps_name: list(ps0), 'lit_Undef': ('lit_Undef',)}
+                    for fl in flags:
+                        env[fl] = True                     # proof logging on
+                    it.env = env
+                    returned = False
+                    try:
+                        for st in top[start:li + 1]:
+                            it.block(st)
+                    except Ret:
+                        returned = True
+                    except Thrown:
+                        raise Unmodelled('throws')
+                    if returned:
+                        continue                           # the clause is satisfied at level 0: nothing is logged
+                    resolved = it.env.get(ru_name)
+                    jn = [k_ for k_ in ('j',) if k_ in it.env]
+                    kept = it.env[ps_name][:it.env[jn[0]]] if jn else None
+                    want_res = [l for l in dict.fromkeys(ps0) if value(None, [l], None) == 1]
+                    want_kept = [l for l in dict.fromkeys(ps0) if value(None, [l], None) == 2]
+                    if list(resolved) != want_res and bad is None:
+                        bad = (ps0, val, 'records the false literals %s, each must be recorded once: %s' % ([show_l(x) for x in resolved], [show_l(x) for x in want_res]))
+                    elif kept is not None and list(kept) != want_kept and bad is None:
+                        bad = (ps0, val, 'keeps %s, the unassigned literals are %s' % ([show_l(x) for x in kept], [show_l(x) for x in want_kept]))
+    except Unmodelled as e:
+        raise AnalysisBroken('addOriginalClause_: the compaction loop is outside the modelled subset: %s' % e)
+    r['instances'] += n
+    if bad:
+        r['instances'] -= 1
+        res.bad(r, 'incoming-clause-compaction', fx.loc(f, top[li].get('ln')), 'CoreSMTSolver::addOriginalClause_ on the sorted clause %s under %s %s: the chain logged for the clause then has a step whose '
+                'pivot does not occur in the current resolvent (or the attached clause differs from the logged one)' % ([show_l(x) for x in bad[0]], bad[1], bad[2]))
+    else:
+        r['sites'].append('%d (clause, level-0 assignment) pairs' % n)
+
+
+def show_l(l):
+    return ('-' if l[2] else '') + l[1] if isinstance(l, tuple) and len(l) == 3 else str(l)
